@@ -82,6 +82,23 @@ def run(ctx):
         marker = Predictor(graph, lambda x: x.reshape((x.shape[0], -1))[:, 0] * 7 + 1)(st)
         if [int(v) for v in marker.tolist()] != [G.wrap(s[0] * 7 + 1) for s in flat]:        # int64 arithmetic wraps
             ctx.violation("property_fails", "a callable predictor's values come back in a different order or value when batched", case, True)
+        # a predictor may return a VIEW of the states it is given (a column): batching must not hand it a buffer that is overwritten by later batches
+        colv = [int(v) for v in Predictor(graph, lambda x: x.reshape((x.shape[0], -1))[:, 0])(st).tolist()]
+        if colv != [s_[0] for s_ in flat]:
+            ctx.violation("property_fails", f"a predictor returning the first entry of each state (a view of its input) gives {colv[:8]}, the entries are {[s_[0] for s_ in flat][:8]}",
+                          dict(case, claim="view_predictor"), True)
+        # matrix-shaped states that are not contiguous in memory (a transposed view holding the same logical states)
+        if gd["kind"] == "matrix" and gd["n"] * gd["m"] > 1:
+            tdata = torch.tensor([[s_[i * gd["m"] + j] for j in range(gd["m"]) for i in range(gd["n"])] for s_ in flat], dtype=torch.int64)
+            st_nc = tdata.reshape((-1, gd["m"], gd["n"])).transpose(1, 2)
+            try:
+                h_nc = [int(v) for v in Predictor(graph, "hamming")(st_nc).tolist()]
+            except Exception as ex:  # pylint: disable=broad-except
+                h_nc = f"{type(ex).__name__}: {str(ex)[:60]}"
+            ctx.count("non_contiguous_matrix_batches")
+            if h_nc != want:
+                ctx.violation("property_fails", f"Hamming predictor on the same states held as a transposed (non-contiguous) view gives {str(h_nc)[:80]}, mismatches are {want}",
+                              dict(case, claim="non_contiguous"), True)
         # a result belongs to the caller: scoring another set with the SAME predictor object must not change scores handed out earlier
         pr_ = Predictor(graph, "hamming")
         first = pr_(st)
